@@ -213,6 +213,7 @@ func runVdrProperty(c *Ctx, prop string) {
 	results := RunVdrSpecs(specs, 14)
 	var checks []VdrModelCheck
 	var owners []int
+	confirmed, tried := map[string]int{}, map[string]int{}
 	for i, res := range results {
 		f := strings.SplitN(res.Final, " goroutine", 2)[0]
 		if strings.HasPrefix(f, "panic") {
@@ -253,6 +254,11 @@ func runVdrProperty(c *Ctx, prop string) {
 				r.hist("other-property-violation-" + vv.Key)
 				continue
 			}
+			r.hist("violation-" + vv.Key)
+			if confirmed[vv.Key] >= 2 || tried[vv.Key] >= 6 {
+				continue // the class is established; do not spend the budget on more instances
+			}
+			tried[vv.Key]++
 			// re-run a disagreeing case once, alone, before reporting
 			again := RunVdrSpecs([]*VdrSpec{specs[i]}, 1)[0]
 			repro := false
@@ -266,6 +272,7 @@ func runVdrProperty(c *Ctx, prop string) {
 				r.hist("unreproduced-" + vv.Key)
 				continue
 			}
+			confirmed[vv.Key]++
 			r.violate(Violation{Kind: vv.Kind, Key: vv.Key, What: vv.What,
 				Input: map[string]interface{}{"spec": specs[i], "detail": vv.Extra}})
 		}
